@@ -1,7 +1,7 @@
 def _conclusive(run):
     """networked cases are re-run by the harness before they are given up: a run in which more than a
     quarter of them stay inconclusive says nothing and must not pass silently"""
-    net = sum(run.arms.get(k, 0) for k in ("raft1", "kill", "net", "redir", "shut"))
+    net = sum(run.arms.get(k, 0) for k in ("raft1", "kill", "net", "redir", "shut", "fold"))
     bad = run.inconclusive
     run.oblig("networked-cases-conclusive", bad <= max(2, (net + bad) // 4),
               "%d inconclusive of %d networked cases" % (bad, net + bad))
@@ -12,6 +12,7 @@ CHECK = {
         suite("fsm", "c01", 400, 6000, stdin=True),
         suite("redir", "c01", 3, 18, stdin=True, args=["-kind", "redir"], timeout={"quick": 600, "thorough": 1500}),
         suite("shut", "c01", 4, 16, stdin=True, args=["-kind", "shut"], timeout={"quick": 600, "thorough": 1200}),
+        suite("fold", "c01", 4, 16, stdin=True, args=["-kind", "fold"], timeout={"quick": 600, "thorough": 1200}),
         suite("raft1", "c01", 0, 30, stdin=True, tiers=["thorough"], args=["-kind", "raft1"], timeout={"thorough": 1200}),
         suite("kill", "c01", 0, 16, stdin=True, tiers=["thorough"], args=["-kind", "kill"], timeout={"thorough": 1200}),
         suite("net", "c01", 0, 32, stdin=True, tiers=["thorough"], args=["-kind", "net"], timeout={"thorough": 1200}),
@@ -24,7 +25,7 @@ CHECK = {
                      "ClusterVerif/Lemmas/C01.lean", "ClusterVerif/Lemmas/PinMap.lean",
                      "ClusterVerif/Model/C01Commit.lean", "ClusterVerif/Lemmas/C01Commit.lean", "ClusterVerif/Gen/C01Commit.lean",
                      "ClusterVerif/Model/C01Gate.lean", "ClusterVerif/Model/C01Shutdown.lean", "ClusterVerif/Lemmas/C01Shutdown.lean",
-                     "ClusterVerif/Gen/C01Shutdown.lean"],
+                     "ClusterVerif/Gen/C01Shutdown.lean", "ClusterVerif/Model/C01Folder.lean", "ClusterVerif/Spec/C01Folder.lean"],
     "rule": "one case = one history: a SUBMITTED sequence of 0-60 pin/unpin operations, each run through the real commit() up to its first attempt "
             "(token G: refused operations - origins, Reference=cid.Undef, undefined Cid - are answered with an error and are not committed; the model's "
             "Op.decodable must agree with every bit), the committed sequence being the LogOps over 6 CIDs (all pin types, modes/depths incl. disagreeing ones, "
@@ -43,6 +44,11 @@ CHECK = {
             "an already expired or an ALREADY CANCELLED context (tokens dl/dt/de/dc; cases k and k+1 cover all four), raft.OfflineState of the data folder compared with what the peer served when it "
             "was shut down (clause shutdown_durable), restart on the folder, more operations, Shutdown with another context, offline read; the model event of a Shutdown is computed from the shape "
             "extract_c01shut reads from raft.go. "
+            "Suite fold (both tiers, round 8b): the offline tools on the data folder of one real Raft node - start, LogPin/LogUnpin, forced snapshot, Shutdown, raft.OfflineState, "
+            "raft.SnapshotSave (state import: over an existing snapshot, into a folder that never held a node, after a cleanup; cids added in unsorted order; the empty state), "
+            "Consensus.Clean on the live node (must be refused) and on the stopped one, restart and more operations on top; after EVERY step what a reader sees (State() when up, OfflineState "
+            "when down) must be exactly the acknowledged state (clause folder_exact; an import replaces it, a cleanup empties it), no cleanup may be acknowledged under a running node (clean_guard), "
+            "and result + observation + snapshot metadata taken over (k) or fresh (f) are compared with Model/C01Folder. "
             "The undecodable stream draws origins, Reference=cid.Undef and undefined Cid. non-trivial = at least one entry applied; distinct by case line",
     "trusted_base": [
         "Raft (hashicorp/raft + raft-boltdb) delivers one committed sequence to every member, keeps every entry after a member's newest snapshot, "
@@ -57,6 +63,8 @@ CHECK = {
         "extract_c01shut (go/ast) reads raftWrapper.Shutdown / snapshotOnShutdown / Snapshot / latestSnapshot / LastStateRaw and OfflineState / Consensus.Shutdown: snapshotOnShutdown called "
         "unconditionally before rw.raft.Shutdown(), the wait context derived from context.Background(), which errors of the wait take the snapshot-anyway arm, the snapshot after the wait, "
         "the newest snapshot opened by the offline read and nothing replayed; unknown statement shapes give recognised := false (the model then never snapshots)",
+        "suite fold: the state is compared as the set of pinned cids (default pin options); only clean shutdowns, so the log suffix behind the newest snapshot is empty whenever the tools run; "
+        "Model/C01Folder is the INTENDED behaviour of SnapshotSave/CleanupRaft (hand-written, no translator)",
         "recording PinTracker behind a real in-process gorpc server (calls recorded in arrival order; a slow Track handler stands for a busy tracker); in-memory datastore as cmdutils.raftStateManager.GetStore provides",
     ],
     "assumptions": [
@@ -80,12 +88,15 @@ META = {
             "the shutdown snapshot of raft.go as a function of the context Shutdown is called with and of a shape regenerated from the source (extracted_shutdown): it is taken for every context, "
             "caught up or not (shutdown_snapshots_every_ctx), so for every schedule the offline read of a cleanly shut down peer is exactly what it served (shutdown_offline_exact, over the invariant "
             "reachable_snapBound) and, for a caught-up peer of any LogPin/LogUnpin history, exactly the replay of the whole sequence (clean_shutdown_offline_caught_up); the context-bound variant is refuted "
-            "(ctx_bound_shutdown_loses_acknowledged; it needs both of its sites and a cancelled context: ctx_bound_needs_both_sites_and_a_cancelled_ctx); an applied entry hands exactly its pin to the tracker (tracker_handoff). The full-strength statements are refuted by "
+            "(ctx_bound_shutdown_loses_acknowledged; it needs both of its sites and a cancelled context: ctx_bound_needs_both_sites_and_a_cancelled_ctx); an applied entry hands exactly its pin to the tracker (tracker_handoff); "
+            "the data-folder tools SnapshotSave / CleanupRaft / Consensus.Clean / OfflineState over one node's folder: for every history of starts, operations, snapshots, clean shutdowns, imports and cleanups "
+            "every reader sees exactly the acknowledged state and no cleanup is acknowledged under a running node (folder_model_meets_spec, import_restart_op_shutdown, clean_guarded; refuted: unguarded_clean_fails, stale_import_fails). The full-strength statements are refuted by "
             "kernel-checked witnesses where the code really breaks them (prefix_inv_fails / some_prefix_fails: go-libp2p-raft snapshots are not point-in-time, K09; "
             "decode_total_fails / caught_up_exact_fails: raw log entries with origins, no longer reachable through commit). The model is tied to the code by driving the real FSM (and, thorough, real Raft "
-            "nodes incl. SIGKILL and InstallSnapshot) with seeded event scripts and, in both tiers, one real Raft node shut down with live / deadline-bound / expired / cancelled contexts whose data folder is then read offline) and comparing every observation with the model, and the Spec clauses are evaluated on the implementation's observations.",
+            "nodes incl. SIGKILL and InstallSnapshot) with seeded event scripts and, in both tiers, one real Raft node shut down with live / deadline-bound / expired / cancelled contexts whose data folder is then read offline) plus the data-folder tools on a real node's folder (suite fold) and comparing every observation with the model, and the Spec clauses are evaluated on the implementation's observations.",
     "note": "Trusted: Lean kernel, hand-written model/spec, Raft's log replication and durability (hashicorp/raft, boltdb), the harness playing Raft's role at FSM level, "
             "the hook files consensus/raft/verif_export_c01.go and verif_export_c01gate.go. Known finding K09 (snapshot not point-in-time) is reproduced and reported, not hidden; "
-            "K01a/K01b (undecodable operations acknowledged) and K29 (hand-off order) are fixed in /repo (3d753d4, 2ba6875) and suppress nothing.",
+            "K01a/K01b (undecodable operations acknowledged) and K29 (hand-off order) are fixed in /repo (3d753d4, 2ba6875) and suppress nothing. Round 8b finding (proposal K01e, notes/C01.md): after SnapshotSave over an existing snapshot the Raft term restarts below the imported snapshot's term, so the "
+            "shutdown snapshot sorts below the imported one and OfflineState misses the operations acknowledged since - reported by suite fold (folder_exact) until the entry is accepted.",
     "technique": "Lean 4 invariants by induction over event sequences + refutation witnesses + differential correspondence (FSM-level deterministic, real Raft thorough)",
 }
